@@ -116,6 +116,50 @@ def _node(label, kids=(), nxt=None):
 
 
 INST_TREE = _node("root", [_node("a", [_node("a1"), _node(None)]), _node("b", [], _node("b-next", [_node("deep")]))], _node("tail"))
+WITNESS_INH = G.HEADER + '''
+@dataclass
+class Base:
+    x: Optional[int] = field(default=None, metadata={"type": "Attribute"})
+
+@dataclass
+class Sub(Base):
+    class Meta:
+        namespace = "urn:s"
+    y: Optional[int] = field(default=None, metadata={"type": "Attribute"})
+    z: Optional[str] = field(default=None, metadata={"type": "Element"})
+
+@dataclass
+class R:
+    f: Optional[Base] = field(default=None, metadata={"type": "Element"})
+    l: list[Base] = field(default_factory=list, metadata={"type": "Element"})
+'''
+
+
+def _b(x):
+    return {"__cls__": "Base", "fields": {"x": {"__p__": "int", "v": x}}}
+
+
+def _s(x, y, z):
+    return {"__cls__": "Sub", "fields": {"x": {"__p__": "int", "v": x}, "y": {"__p__": "int", "v": y},
+                                         "z": {"__p__": "str", "v": z} if z is not None else None}}
+
+
+INST_INH = {"__cls__": "R", "fields": {"f": _s(1, 2, "zed"), "l": [_b(3), _s(4, 5, None), _b(6)]}}
+# finding C01-F8: the type qname of the subclass equals the element name of the field
+WITNESS_XDROP = G.HEADER + '''
+@dataclass
+class Base:
+    x: Optional[int] = field(default=None, metadata={"type": "Attribute"})
+
+@dataclass
+class item(Base):
+    y: Optional[int] = field(default=None, metadata={"type": "Attribute"})
+
+@dataclass
+class R:
+    item: Optional[Base] = field(default=None, metadata={"type": "Element"})
+'''
+INST_XDROP = {"__cls__": "R", "fields": {"item": {"__cls__": "item", "fields": {"x": {"__p__": "int", "v": 1}, "y": {"__p__": "int", "v": 2}}}}}
 WITNESS_JOBS = [
     {"src": WITNESS_RICH, "name": "w_rich", "root": "Root", "instances": [INST_RICH], "cases": [
         {"i": 0, "writer": "native", "handler": "native", "config": {"indent": "  "}, "ns_map": {"p": "urn:a"}, "strict": True},
@@ -129,12 +173,17 @@ WITNESS_JOBS = [
         {"i": 0, "writer": "native", "handler": "native", "config": {}, "ns_map": {"": "urn:a"}, "strict": True}]},
     {"src": WITNESS_TREE, "name": "w_tree", "root": "Node", "instances": [INST_TREE], "cases": [
         {"i": 0, "writer": "native", "handler": "lxml", "config": {"indent": "  "}, "ns_map": None, "strict": True}]},
+    {"src": WITNESS_INH, "name": "w_inh", "root": "R", "instances": [INST_INH], "cases": [
+        {"i": 0, "writer": "native", "handler": "native", "config": {"indent": "  "}, "ns_map": None, "strict": True},
+        {"i": 0, "writer": "lxml", "handler": "lxml", "config": {}, "ns_map": {"s": "urn:s"}, "strict": True}]},
+    {"src": WITNESS_XDROP, "name": "w_xdrop", "root": "R", "instances": [INST_XDROP], "cases": [
+        {"i": 0, "writer": "native", "handler": "native", "config": {}, "ns_map": None, "strict": True}]},
 ]
 WITNESS_PATH = os.path.join(COQ, "Proofs", "RoundtripWitness.v")
 
 
 def witness_text(out):
-    rich, nil, seqtok, qn, tree = out["jobs"]
+    rich, nil, seqtok, qn, tree, inh, xdrop = out["jobs"]
 
     def D(name, ty, term):
         return f"Definition {name} : {ty} :=\n  {term}.\n"
@@ -195,6 +244,26 @@ Import ListNotations.
     txt += D("o_tree", "value", tree["cases"][0]["value"])
     txt += "(* XmlEventWriter, indent  ->  LxmlEventHandler *)\n"
     txt += D("pevs_tree", "list pevent", tree["cases"][0]["pevents"])
+    txt += '''
+(* model `inh`: Sub(Base) in namespace urn:s; R.f : Optional[Base], R.l : list[Base]; instance
+   R(f=Sub(1, 2, 'zed'), l=[Base(3), Sub(4, 5, None), Base(6)]): the Sub instances are written with xsi:type *)
+'''
+    txt += D("u_inh", "universe", inh["universe"])
+    txt += D("root_inh", "cls", inh["root"])
+    txt += D("o_inh", "value", inh["cases"][0]["value"])
+    txt += "(* XmlEventWriter, indent  ->  XmlEventHandler *)\n"
+    txt += D("pevs_inh_native", "list pevent", inh["cases"][0]["pevents"])
+    txt += "(* LxmlEventWriter, user prefix map {s: urn:s}  ->  LxmlEventHandler *)\n"
+    txt += D("pevs_inh_lxml", "list pevent", inh["cases"][1]["pevents"])
+    txt += '''
+(* model `xdrop` (known finding C01-F8): class `item`(Base), R.item : Optional[Base]; instance
+   R(item=item(x=1, y=2)): the type qname of the subclass equals the element name of the field and the
+   serializer drops xsi:type: <R><item x="1" y="2"/></R> *)
+'''
+    txt += D("u_xdrop", "universe", xdrop["universe"])
+    txt += D("root_xdrop", "cls", xdrop["root"])
+    txt += D("o_xdrop", "value", xdrop["cases"][0]["value"])
+    txt += D("pevs_xdrop", "list pevent", xdrop["cases"][0]["pevents"])
     return txt
 
 
@@ -225,6 +294,11 @@ def check_witness(ck):
                    {"cases": out["jobs"][0]["cases"]})
     if out["jobs"][1]["cases"][0].get("equal"):
         ck.notes.append("witness of finding C01-F1 (nil conflation) round-trips now: the nillable guard clause can go")
+    if not all(c.get("equal") for c in out["jobs"][5]["cases"]):
+        ck.failure("guard-oracle", "the witness instance of model `inh` (subclass instances, inside the guards) does not round-trip on the real code",
+                   {"cases": out["jobs"][5]["cases"]})
+    if out["jobs"][6]["cases"][0].get("equal"):
+        ck.notes.append("witness of finding C01-F8 (xsi:type dropped) round-trips now: the clause of derived_ok can go")
     if not out["jobs"][4]["cases"][0].get("equal"):
         ck.failure("guard-oracle", "the witness instance of the recursive model `tree` (inside the guards) does not round-trip on the real code",
                    {"cases": out["jobs"][4]["cases"]})
@@ -406,6 +480,40 @@ def add_recursion(r, m, insts):
     # field order of subclasses: dataclass fields of the base come first, the recipes are keyed by name
 
 
+def xsi_dropped_fields(m, inst):
+    """(class, field) pairs of the instance that hold an instance of a SUBCLASS whose (local) type name equals the
+    (local) element name of the field: EventGenerator.real_xsi_type drops xsi:type there (finding C01-F8)"""
+    hits = []
+
+    def local_type(c):
+        return c["meta"].get("name") or c["name"]
+
+    def walk(x):
+        if isinstance(x, list):
+            for y in x:
+                walk(y)
+        elif isinstance(x, dict) and "__cls__" in x:
+            try:
+                c = G.find_class(m, x["__cls__"])
+                fs = G.all_fields(m, c)
+            except Exception:  # noqa
+                return
+            for f in fs:
+                v = x["fields"].get(f["name"])
+                tp = f.get("type")
+                if f["kind"] == "Element" and tp and tp[0] == "class":
+                    for y in (v if isinstance(v, list) else [v]):
+                        if isinstance(y, dict) and y.get("__cls__") not in (None, tp[1]):
+                            try:
+                                if local_type(G.find_class(m, y["__cls__"])) == (f.get("xml_name") or f["name"]):
+                                    hits.append((c["name"], f["name"]))
+                            except Exception:  # noqa
+                                pass
+                walk(v)
+    walk(inst)
+    return hits
+
+
 def span_members(fields):
     """names of the element fields next_value renders through the rolling loop: everything from a field with a
     `sequence` number to the last field with the same number"""
@@ -526,6 +634,8 @@ def classify(m, inst, case, res, vres):
         return "indent-alters-mixed-text"
     if seq_token_fields(m, inst) and ("exc" in res or any(f.get("tokens") for _, f in fields_along(m, inst, path))):
         return "sequence-tokens-split"             # C01-F7: next_value yields the tokens one by one
+    if xsi_dropped_fields(m, inst) and ("exc" in res or "<type " in path or "<keys>" in path):
+        return "xsi-type-dropped"                  # C01-F8: the subclass's type name equals the element name
     if "exc" in res:
         return "exception-" + res["exc"]
     if path.endswith("<keys>") and "XMLSchema-instance}" in res.get("back", ""):
